@@ -307,7 +307,7 @@ def main(run):
                 volfrac = ppars["volfraction"] if in_p else rng.uniform(0.02, 0.35)
                 er_user = rng.uniform(20, 80)
                 # dispersity on P parameters, and on radius_effective when the user supplies it
-                pdn = list(pinfo.parameters.pd_2d if dim == "2d" else pinfo.parameters.pd_1d)
+                pdn = c01.dispersible(pinfo.parameters, dim)
                 disp = {}
                 for nm in rng.sample(pdn, min(len(pdn), rng.choice([0, 1, 2]))):
                     pr = [x for x in pinfo.parameters.call_parameters if x.name == nm][0]
@@ -334,7 +334,7 @@ def main(run):
                     disp = {}          # the first case of a synthetic form factor is monodisperse: compared with its definition
                 er_disp = {}
                 er_par = [x for x in info.parameters.call_parameters if x.name == "radius_effective"][0]
-                if rng.random() < 0.3 and er_par.polydisperse and "radius_effective" in (info.parameters.pd_2d if dim == "2d" else info.parameters.pd_1d):
+                if rng.random() < 0.3 and er_par.polydisperse and "radius_effective" in c01.dispersible(info.parameters, dim):
                     er_disp = {"radius_effective_pd": rng.uniform(0.05, 0.2), "radius_effective_pd_n": 5}
                 if disp or er_disp:
                     stats["with_dispersity"] += 1
